@@ -7,6 +7,7 @@ import gc
 import random
 import weakref
 
+import common
 from common import Report, proof_stage
 from gencalc import Obj, drive
 import asyncstdlib as a
@@ -108,6 +109,11 @@ def tee_pattern(rng, N, nchild):
 
     async def go():
         nonlocal worst, steps
+        if rng.random() < 0.3:
+            # a child that is closed before anybody has advanced
+            j = rng.randrange(nchild)
+            await kids[j].aclose()
+            live[j] = False
         while builtins.any(live) and steps < 6 * N:
             steps += 1
             i = rng.choice([j for j in range(nchild) if live[j]])
@@ -170,7 +176,7 @@ def run(tier, seed):
             rep.violation("retention:%s" % name, {"tool": name, "why": "retention grows with the stream: %r" % (d,)})
     rep.notes["max_live_items_by_tool_and_stream"] = maxima
     # tee: every pattern of child progress and early close
-    npat = 150 if tier == "quick" else 3000
+    npat = 150 * common.scale(rep) if tier == "quick" else 3000
     for k in range(npat):
         nchild = rng.choice([2, 3, 3, 4])
         N = rng.choice([50, 120])
